@@ -37,6 +37,10 @@ TArray(n, t) == [k |-> "array", e |-> <<t>>, f |-> <<>>, n |-> n, id |-> ""]
 S1 == TStruct(<<Fld("X", <<88>>, tInt),
                [Fld("Why", <<87, 104, 121>>, tStr) EXCEPT !.tname = "y", !.tb = <<121>>, !.opts = <<"omitempty">>]>>)
 S1Val(a, b) == VStruct(<<Leaf(tInt, a), Leaf(tStr, b)>>)
+\* a struct that inlines S1 behind another field: used inlined itself it gives two levels of inlining,
+\* the inner one at a non-zero offset of the outer
+S2 == TStruct(<<Fld("M", <<77>>, tInt), FldO("In", <<73, 110>>, <<"inline">>, S1), Fld("Tl", <<84, 108>>, tInt)>>)
+S2Val(m, a, b) == VStruct(<<Leaf(tInt, m), S1Val(a, b), Leaf(tInt, 2)>>)
 
 \* ---- catalogue: field type with its value classes ----------------------------
 ScalarT == {TScalar(k) : k \in {"string", "int", "int8", "uint64", "float32", "float64", "bool", "uint8", "int64"}}
@@ -58,6 +62,8 @@ Cat ==
   \cup {<<TPtr(S1), x>> : x \in {VNil("ptr"), VPtr(S1Val(1, 1))}}
   \cup {<<TPtr(TSlice(tInt)), x>> : x \in {VPtr(VNil("slice")), VPtr(VSlice(<<Leaf(tInt, 1)>>))}}
   \cup {<<S1, x>> : x \in {S1Val(0, 0), S1Val(1, 1)}}
+  \cup {<<S2, x>> : x \in {S2Val(0, 0, 0), S2Val(1, 2, 1)}}
+  \cup {<<TPtr(S2), x>> : x \in {VNil("ptr"), VPtr(S2Val(2, 1, 1))}}
   \cup {<<tIface, x>> : x \in {VNil("iface"), VIface(tInt, Leaf(tInt, 1)), VIface(tStr, Leaf(tStr, 0)), VIface(tStr, Leaf(tStr, 1)),
                                VIface(TScalar("float64"), Leaf(TScalar("float64"), 1)), VIface(TScalar("bool"), Leaf(TScalar("bool"), 1)),
                                VIface(TSlice(tIface), VSlice(<<VIface(tInt, Leaf(tInt, 1))>>)),
